@@ -125,3 +125,151 @@ class AddInteractionsFrom(Contract):
         for name, f in self.fold_clauses(ctx, c, g, ctx.views['self'], c.n, False):
             ctx.oblige('C01.bulk.state_is_the_fold_of_the_elements.%s' % name, f, tags=('C01',))
         ctx.oblige('C03.built_via_kernel', z3.BoolVal(bool(g.valid)), tags=('C03', 'C01'))
+
+
+# ---- add_star / add_path / add_cycle (methods and dn.* forms): thin wrappers around add_interactions_from ----------------------------
+#
+# ensures  exactly ONE call of add_interactions_from, made in the unchanged pre-state (no node is registered beforehand), with t passed
+#          through and the pair sequence   star: (x_0, x_{k+1}), k < n-1     path: (x_k, x_{k+1}), k < n-1     cycle: (x_k, x_{(k+1) mod n}), k < n
+#          for nodes = x_0 ... x_{n-1};  nothing else is done: the effect is the callee's (AddInteractionsFrom: verified contract)
+# requires star, cycle: n >= 1 (an empty node list raises IndexError / StopIteration before anything is touched)
+
+class BulkCallSite(Contract):
+    """caller side of add_interactions_from inside the helpers: site obligations only"""
+    props = ('C01', 'C07')
+
+    def __init__(self, cls):
+        self.cls = cls
+        mod = 'dyndigraph' if cls == 'DynDiGraph' else 'dyngraph'
+        self.key = '%s::%s.add_interactions_from' % (mod, cls)
+
+    def apply(self, interp, g, argv, kwv):
+        from pyvc.seqs import _as_seq
+        ctx = interp.ctx
+        c = ctx.bh
+        T_ = ('C01', 'C07')
+        args = dict(zip(['ebunch', 't', 'e'], argv))
+        args.update(kwv)
+        eb, t, e = args.get('ebunch'), args.get('t', VNone), args.get('e', VNone)
+        c.calls += 1
+        for comp, f in spec.state_unchanged(c.g, c.pre).items():
+            ctx.oblige('C07.helper.nothing_is_touched_before_the_bulk_call.%s' % comp, f, tags=T_, kind='call-site')
+        ok_t = (t.kind == 'none') if c.t is None else (t.kind == 'int' and True)
+        ctx.oblige('C01.helper.passes_t', (z3.BoolVal(ok_t) if c.t is None or t.kind != 'int' else t.z == c.t), tags=T_, kind='call-site')
+        ctx.oblige('C01.helper.passes_no_vanishing_time', z3.BoolVal(e.kind == 'none'), tags=T_, kind='call-site')
+        try:
+            s = _as_seq(interp, eb) if eb.kind != 'seqiter' else None
+        except Undecided:
+            s = None
+        if s is None:
+            self.forbid(ctx, 'C01.helper.passes_a_sequence_of_pairs', tags=T_, note='ebunch kind %s' % (eb.kind if eb is not None else None))
+        else:
+            ctx.oblige('C01.helper.number_of_pairs', s.n == c.n_pairs, tags=T_, kind='call-site')
+            k = c.k
+            el = s.elem(k)
+            if el.kind == 'tuple' and len(el.items) == 2 and all(x.kind == 'node' for x in el.items):
+                a, b = c.pair(k)
+                ctx.oblige('C01.helper.pair_k', z3.Implies(z3.And(0 <= k, k < c.n_pairs), z3.And(el.items[0].z == a, el.items[1].z == b)), tags=T_, kind='call-site')
+            else:
+                self.forbid(ctx, 'C01.helper.pairs_are_node_pairs', tags=T_, note='element kind %s' % el.kind)
+        g.havoc('@bulk')                  # the callee's effect: not modelled here (its own contract)
+        return VNone
+
+
+class BulkHelper(Contract):
+    props = ('C01', 'C07')
+
+    def __init__(self, cls, fname, functional=False, bound_n=None):
+        self.cls, self.fname, self.functional = cls, fname, functional
+        self.directed = cls == 'DynDiGraph'
+        mod = 'dyndigraph' if self.directed else 'dyngraph'
+        self.key = ('function::%s' % fname) if functional else '%s::%s.%s' % (mod, cls, fname)
+
+    def variants(self):
+        return [{'t': 'int'}, {'t': 'none'}]
+
+    def uses(self, eng):
+        return [BulkCallSite(self.cls)]
+
+    def setup(self, ctx, variant):
+        g = HGraph('self' if not self.functional else 'G', self.directed, self.cls).havoc('0')
+        g['ER'] = fresh('er', Bool)
+        ctx.graphs[g.name] = g
+        n = fresh('n', Int)
+        xf = fresh_fun('x', Int, Node)
+        kind = self.fname.split('_')[1]
+        ctx.assume(n >= (0 if kind == 'path' else 1))
+        t = fresh('t', Int) if variant['t'] == 'int' else None
+        nodes = VSeq(n, lambda k: VNode(xf(k)), {'elem_kind': 'node'})
+        if kind == 'star':
+            n_pairs, pair = n - 1, (lambda k: (xf(0), xf(k + 1)))
+        elif kind == 'path':
+            n_pairs, pair = z3.If(n >= 1, n - 1, IntV(0)), (lambda k: (xf(k), xf(k + 1)))
+        else:
+            n_pairs, pair = n, (lambda k: (xf(k), z3.If(k + 1 < n, xf(k + 1), xf(0))))
+        c = Call(g=g, pre=g.snapshot(), t=t, n=n, n_pairs=n_pairs, pair=pair, k=fresh('k', Int), calls=0,
+                 argv=[VGraph(g), nodes, VInt(t) if t is not None else VNone], kwv={})
+        ctx.bh = c
+        return c
+
+    def finish(self, ctx, c, outcome):
+        T_ = ('C01', 'C07')
+        if outcome[0] == 'raise':
+            return self.forbid(ctx, 'C01.helper.no_exception_of_its_own.%s' % outcome[1], tags=T_, note=outcome[2])
+        if c.calls != 1:
+            return self.forbid(ctx, 'C01.helper.exactly_one_bulk_call', tags=T_, note='%d call(s)' % c.calls)
+        ctx.oblige('C01.helper.exactly_one_bulk_call', z3.BoolVal(True), tags=T_)
+
+
+def run_helper_case(cls, fname, functional, nodes, t):
+    """the real helper on a small graph with add_interactions_from replaced (on the instance) by a recording stub"""
+    import dynetx as dn
+    G = getattr(dn, cls)()
+    G.add_interaction(8, 9, 0)
+    kind = fname.split('_')[1]
+    n = len(nodes)
+    exp = {'star': [(nodes[0], x) for x in nodes[1:]], 'path': list(zip(nodes[:-1], nodes[1:])),
+           'cycle': list(zip(nodes, nodes[1:] + nodes[:1]))}[kind]
+    dump = lambda: (sorted(G.nodes()), sorted((a, b, repr(d)) for a, b, d in (G.interactions() if cls == 'DynGraph' else G.out_interactions())),
+                    sorted(G.snapshots.items()))
+    before = dump()
+    calls = []
+
+    def stub(ebunch, t=None, e=None, **kw):
+        calls.append((list(ebunch), t, e, dump()))
+    G.add_interactions_from = stub
+    out = {}
+    try:
+        if functional:
+            getattr(dn, fname)(G, list(nodes), t)
+        else:
+            getattr(G, fname)(list(nodes), t)
+    except Exception as ex:
+        return {'C01.helper.no_exception_of_its_own.%s' % type(ex).__name__: repr(ex)}
+    if len(calls) != 1:
+        return {'C01.helper.exactly_one_bulk_call': '%d calls' % len(calls)}
+    eb, t_, e_, at_call = calls[0]
+    if at_call != before:
+        out['C07.helper.nothing_is_touched_before_the_bulk_call.NodeIn'] = 'state at the bulk call %r, before the helper %r' % (at_call, before)
+    if t_ != t:
+        out['C01.helper.passes_t'] = 't=%r passed, %r given' % (t_, t)
+    if e_ is not None:
+        out['C01.helper.passes_no_vanishing_time'] = 'e=%r' % (e_,)
+    if len(eb) != len(exp):
+        out['C01.helper.number_of_pairs'] = '%s(%r): pairs %r, expected %r' % (fname, nodes, eb, exp)
+    elif [tuple(x) for x in eb] != exp:
+        out['C01.helper.pair_k'] = '%s(%r): pairs %r, expected %r' % (fname, nodes, eb, exp)
+    return out
+
+
+def _search_helper(self, engine):
+    for nodes in ([1, 2, 3], [1, 2], [4, 5, 6, 7], [1], [3, 3, 1]):
+        for t in (2, None):
+            v = run_helper_case(self.cls, self.fname, self.functional, nodes, t)
+            if v:
+                return {'violated': v, 'call': '%s%s(%r, %r) on a %s; add_interactions_from replaced by a recording stub' % ('dn.' if self.functional else 'G.', self.fname, nodes, t, self.cls),
+                        'replayer': {'module': 'contracts.bulk', 'function': 'run_helper_case', 'args': [self.cls, self.fname, self.functional, nodes, t]}}
+    return None
+
+
+BulkHelper.search_real = _search_helper
